@@ -306,6 +306,39 @@ func (e *Env) expr(x ast.Expr) Val {
 	return Val{t: c.declConst("specx", c.sortOf(t)), typ: t}
 }
 
+// selectPattern: a trigger for a bounded quantifier: the first subterm (select X bv) that
+// reads an array exactly at the bound variable and does not mention it elsewhere ("a[i]")
+func selectPattern(body Sx, bv string) Sx {
+	ss := parseSexps(body)
+	var found *sexp
+	var walk func(n *sexp)
+	mentions := func(n *sexp) bool {
+		return strings.Contains(" "+strings.NewReplacer("(", " ", ")", " ").Replace(n.String())+" ", " "+bv+" ")
+	}
+	walk = func(n *sexp) {
+		if found != nil || n.list == nil {
+			return
+		}
+		if len(n.list) == 3 && n.list[0].atom == "select" && n.list[2].atom == bv && !mentions(n.list[1]) {
+			// quantifier-free array term only
+			if !strings.Contains(n.list[1].String(), "forall") {
+				found = n
+				return
+			}
+		}
+		for _, ch := range n.list {
+			walk(ch)
+		}
+	}
+	for _, n := range ss {
+		walk(n)
+	}
+	if found == nil {
+		return ""
+	}
+	return found.String()
+}
+
 func isPlainInt(t types.Type) bool {
 	b, ok := t.(*types.Basic)
 	return ok && (b.Kind() == types.Int || b.Kind() == types.UntypedInt)
@@ -365,6 +398,9 @@ func (e *Env) quant(kind string, sort Sx, bound string, typ types.Type, rng func
 	}
 	g := rng(bv)
 	if kind == "forall" {
+		if pat := selectPattern(bt, bv); pat != "" {
+			return Val{t: fmt.Sprintf("(forall ((%s %s)) (! %s :pattern (%s)))", bv, sort, imp(g, bt), pat), typ: types.Typ[types.Bool]}
+		}
 		return Val{t: fmt.Sprintf("(forall ((%s %s)) %s)", bv, sort, imp(g, bt)), typ: types.Typ[types.Bool]}
 	}
 	return Val{t: fmt.Sprintf("(exists ((%s %s)) %s)", bv, sort, and(g, bt)), typ: types.Typ[types.Bool]}
